@@ -96,6 +96,11 @@ def cases(tier):
                     p = program(pre, n, body, [['D', 5]], h)
                     p['_loose'] = True
                     out.append(p)
+    # dates without exact binary representation, entered at such times (a date must not move by a float round trip)
+    for pre in (0.2, 0.3, 0.1):
+        for n in (['EQ', 0.9], ['GE', 0.9], ['EQ', 1.1], ['GE', 0.7], ['DELAY', 0.7]):
+            for body in ([['D', 1]], [['ETERNITY']], [['DO', 'c', [['D', 2], ['PROBE', 'now']]]]):
+                out.append(program(pre, n, body, [['D', 0.1]], 'none'))
     # nested until: equal / earlier / later deadlines, and the very same flag object
     nest_n = [['DELAY', 1], ['DELAY', 2], ['EQ', 1], ['EQ', 2], ['GE', 1], ['GE', 2], ['F', 'A'], ['T', 'X', '>=', 1]]
     for n1, n2 in itertools.product(nest_n, nest_n):
